@@ -145,6 +145,20 @@ def resolve_syntatic_sugar(a: ast.AST) -> ast.AST:
                     signature = inspect.signature(a.func.value)  # type: ignore
                     sig_arg_names = [p.name for p in signature.parameters.values()]
 
+                    # Keyword-only fields can't be given by position
+                    n_positional = len(
+                        [
+                            p
+                            for p in signature.parameters.values()
+                            if p.kind in (p.POSITIONAL_ONLY, p.POSITIONAL_OR_KEYWORD)
+                        ]
+                    )
+                    if len(a.args) > n_positional:
+                        raise ValueError(
+                            f"Too many positional arguments for dataclass {a.func.value}"
+                            f" - {ast.unparse(node)}."
+                        )
+
                     return self.convert_call_to_dict(a, node, sig_arg_names)
 
                 elif hasattr(a.func.value, "_fields"):
